@@ -57,7 +57,23 @@ func c20Ops() []c20Op {
 			b := s.Serialize(nil, *pj)
 			d := simdjson.NewSerializer()
 			out, derr := d.Deserialize(b, nil)
-			return renderOf(out, derr)
+			// the serialized bytes themselves are part of what the goroutine observes
+			return fmt.Sprintf("blob %d bytes %016x -> %s", len(b), hashBytes(b), renderOf(out, derr))
+		}
+	}
+	deAfterReject := func(mode int) func(id int) string {
+		return func(id int) string {
+			// one Serializer: a blob whose values block has a bad type byte (rejected after the
+			// tags decompressor was started), then a valid blob
+			good := c20Blobs[id][mode]
+			bad := append([]byte(nil), good...)
+			if f := varintFields(bad); len(f) > 9 && f[9][0]+f[9][1] < len(bad) {
+				bad[f[9][0]+f[9][1]] = 7
+			}
+			d := simdjson.NewSerializer()
+			_, err1 := d.Deserialize(bad, nil)
+			out, err2 := d.Deserialize(c20Blobs[(id+1)%3][0], nil)
+			return fmt.Sprintf("rejected=%v then %s", err1 != nil, renderOf(out, err2))
 		}
 	}
 	de := func(mode int) func(id int) string {
@@ -100,6 +116,26 @@ func c20Ops() []c20Op {
 		{"Serialize(best)+Deserialize", ser(simdjson.CompressBest)},
 		{"Deserialize(blob fast)", de(1)},
 		{"Deserialize(blob best)", de(3)},
+		{"Deserialize(rejected best blob); Deserialize(valid) on one Serializer", deAfterReject(3)},
+		{"ParseNDStream(two lines, unbuffered result channel, values handed back)", func(id int) string {
+			res := vsched.MakeChan(make(chan simdjson.Stream))
+			reuse := vsched.MakeChan(make(chan *simdjson.ParsedJson, 2))
+			simdjson.ParseNDStream(strings.NewReader(c20Small[id]+"\n"+c20Small[(id+1)%3]+"\n"), res, reuse)
+			var sb strings.Builder
+			for {
+				v, ok := vsched.Recv2(res)
+				if !ok {
+					break
+				}
+				if v.Error != nil {
+					sb.WriteString(" error:" + v.Error.Error())
+					continue
+				}
+				sb.WriteString(" value:" + renderOf(v.Value, nil))
+				vsched.Select(true, vsched.SendCase(reuse, v.Value))
+			}
+			return sb.String() + " closed"
+		}},
 		{"traverse+marshal", func(id int) string {
 			pj, err := simdjson.Parse([]byte(c20Small[id]), nil)
 			if err != nil {
@@ -115,6 +151,8 @@ func c20Ops() []c20Op {
 type c20Case struct {
 	Progs   [][]int `json:"programs"` // per goroutine: op indexes
 	Choices []int   `json:"choices"`
+	Free    bool    `json:"free_scheduling_inside_families,omitempty"`
+	Cold    bool    `json:"cold_start,omitempty"`
 }
 
 func (c c20Case) text(ops []c20Op) string {
@@ -131,9 +169,10 @@ func (c c20Case) text(ops []c20Op) string {
 
 // c20Exec runs the programs concurrently (one managed thread each) and returns what each
 // goroutine observed.
-func c20Exec(ch vsched.Chooser, ops []c20Op, progs [][]int) ([]string, vsched.Result) {
+func c20Exec(ch vsched.Chooser, ops []c20Op, progs [][]int, free, cold bool) ([]string, vsched.Result) {
 	out := make([]string, len(progs))
-	res := vsched.Run(ch, vsched.Options{MaxSteps: 200000, PoolPrefill: 1, Families: true}, func() {
+	res := vsched.Run(ch, vsched.Options{MaxSteps: 200000, PoolPrefill: 1, Families: !free, ColdOnces: cold}, func() {
+		simdjson.VerifTmpSize = 1 << 16 // chunk buffers of the stream operation (instrumented copy only)
 		done := vsched.MakeChan(make(chan int, len(progs)))
 		for g := range progs {
 			g := g
@@ -178,7 +217,7 @@ func c20Body(w *W) {
 		}
 		progs := make([][]int, g+1)
 		progs[g] = prog
-		out, _ := c20Exec(zeroChooser{}, ops, progs)
+		out, _ := c20Exec(zeroChooser{}, ops, progs, false, false)
 		alone[k] = out[g]
 		return out[g]
 	}
@@ -204,22 +243,45 @@ func c20Body(w *W) {
 			jobs = append(jobs, [][]int{{a}, {(a + 3) % n}, {(a + 5) % n}})
 		}
 	}
-	w.Note(fmt.Sprintf("programs: every unordered pair of single operations over %d ops {Parse small/async, ParseND, Clone+edit, Serialize x3 modes + Deserialize, Deserialize x2 blobs, traverse+marshal}, 20 pairs of two-operation programs around the shared pools (thorough: + 3-goroutine triples); each goroutine works on its own documents; every interleaving with <= %d preemptions, pool answers (recycled vs new) enumerated; pools start each execution holding one object", n, pb))
-	for _, progs := range jobs {
+	w.Note(fmt.Sprintf("programs: every unordered pair of single operations over %d ops {Parse small/async, ParseND, Clone+edit, Serialize x3 modes + Deserialize, Deserialize x2 blobs, traverse+marshal}, 20 pairs of two-operation programs around the shared pools (thorough: + 3-goroutine triples); each goroutine works on its own documents; every interleaving with <= %d preemptions, pool answers (recycled vs new) enumerated; pools start each execution holding one object; plus 3 program sets around Deserialize(rejected blob)+Deserialize(valid blob) on one Serializer and 1 around ParseNDStream with scheduling inside the families free as well (one goroutine: <= %d preemptions, two: <= %d); plus 6 program sets around NewSerializer/Serialize/Deserialize started cold (every sync.Once of the package reset before the execution, so the shared zstd decoder is built inside it)", n, pb, pb, pb-1))
+	// the same programs with scheduling inside each family free as well (a goroutine the
+	// library leaves behind can only be ordered against its own family's later calls here)
+	nFam := len(jobs)
+	rej, strm := -1, -1
+	for i, o := range ops {
+		if strings.HasPrefix(o.name, "ParseNDStream") {
+			strm = i
+		}
+		if strings.HasPrefix(o.name, "Deserialize(rejected") {
+			rej = i
+		}
+	}
+	jobs = append(jobs, [][]int{{rej}}, [][]int{{rej}, {7}}, [][]int{{rej}, {rej}}, [][]int{{strm}})
+	// cold start: the package's lazily built shared state (sync.Once) is initialised again
+	// inside the execution, by whichever goroutine gets there first
+	nCold := len(jobs)
+	jobs = append(jobs, [][]int{{7}, {7}}, [][]int{{7}, {8}}, [][]int{{4}, {7}}, [][]int{{6}, {6}}, [][]int{{rej}, {7}}, [][]int{{5, 7}, {7, 4}})
+	for ji, progs := range jobs {
 		if !w.Mine() {
 			continue
 		}
+		free := ji >= nFam && ji < nCold
+		cold := ji >= nCold
 		var want []string
 		for g, p := range progs {
 			want = append(want, aloneOf(g, p))
 		}
 		var out []string
 		var res vsched.Result
-		e := &vexp.Explorer{Bound: pb, N: 1, MaxExec: 60000, Stop: func() bool { return w.Expired() || w.TooManyViolations() }}
+		bound := pb
+		if free && len(progs) > 1 {
+			bound = pb - 1 // all thread switches at blocking/exit points stay free
+		}
+		e := &vexp.Explorer{Bound: bound, N: 1, MaxExec: 60000, Stop: func() bool { return w.Expired() || w.TooManyViolations() }}
 		e.Exec = func(ch vsched.Chooser) bool {
-			enc, _ := json.Marshal(c20Case{Progs: progs})
+			enc, _ := json.Marshal(c20Case{Progs: progs, Free: free, Cold: cold})
 			w.cur.Set("C20-interleave", "", enc)
-			out, res = c20Exec(ch, ops, progs)
+			out, res = c20Exec(ch, ops, progs, free, cold)
 			return false
 		}
 		e.Check = func(choices []int, trace []vexp.Point) {
@@ -245,9 +307,9 @@ func c20Body(w *W) {
 			}
 			w.Distinct(hashBytes([]byte(fmt.Sprint(progs, out))))
 			if bad != "" {
-				c := c20Case{Progs: progs, Choices: choices}
+				c := c20Case{Progs: progs, Choices: choices, Free: free, Cold: cold}
 				enc, _ := json.Marshal(c)
-				w.Violate(Violation{Harness: "C20-interleave", Fingerprint: "C20/" + fp, What: bad, Case: enc, CaseText: c.text(ops) + " schedule " + compressChoices(choices), Config: fmt.Sprintf("pb<=%d", pb)})
+				w.Violate(Violation{Harness: "C20-interleave", Fingerprint: "C20/" + fp, What: bad, Case: enc, CaseText: c.text(ops) + " schedule " + compressChoices(choices), Config: fmt.Sprintf("pb<=%d", bound)})
 			}
 		}
 		e.Explore()
@@ -278,14 +340,14 @@ func c20Replay(v *Violation) string {
 			}
 		}
 	})
-	out, res := c20Exec(&prefixChooser{p: c.Choices}, ops, c.Progs)
+	out, res := c20Exec(&prefixChooser{p: c.Choices}, ops, c.Progs, c.Free, c.Cold)
 	if res.Panic != nil || res.Deadlock || res.Livelock {
 		return fmt.Sprintf("FAIL panic=%v deadlock=%v livelock=%v", res.Panic, res.Deadlock, res.Livelock)
 	}
 	for g, p := range c.Progs {
 		progs := make([][]int, g+1)
 		progs[g] = p
-		al, _ := c20Exec(zeroChooser{}, ops, progs)
+		al, _ := c20Exec(zeroChooser{}, ops, progs, false, false)
 		if al[g] != out[g] {
 			return fmt.Sprintf("FAIL goroutine %d observed %s, alone %s", g, clip(out[g]), clip(al[g]))
 		}
